@@ -397,7 +397,10 @@ func newVMUnderTest(name, src string, year bool, loc *time.Location) (*vmUnderTe
 
 // runLine processes one line on the real VM and returns the canonical outcome and raw error text.
 func (u *vmUnderTest) runLine(filename, line string) (string, string) {
-	u.v.VerifClearRuntimeError()
+	// a new runtime error is recognised by the program's error counter, not by resetting the VM's
+	// last-error string: that string is VM state, and a harness that clears it between lines
+	// hides anything that depends on it
+	errsBefore := expvarMapInt("prog_runtime_errors_total", u.name)
 	ctx := context.Background()
 	var raw string
 	func() {
@@ -408,7 +411,7 @@ func (u *vmUnderTest) runLine(filename, line string) (string, string) {
 		}()
 		u.v.ProcessLogLine(ctx, logline.New(ctx, filename, line))
 	}()
-	if raw == "" {
+	if raw == "" && expvarMapInt("prog_runtime_errors_total", u.name) > errsBefore {
 		raw = u.v.RuntimeErrorString()
 	}
 	cls := classifyRuntimeError(raw)
